@@ -164,16 +164,19 @@ def build_msg(m):
 _live = {}
 
 
-def _setup(servertype, commtimeout):
+def _setup(servertype, commtimeout, poolsize=None):
     from vlib import live
-    key = (servertype, commtimeout)
+    key = (servertype, commtimeout, poolsize)
     if _live.get("key") != key:
         _teardown()
     if "served" in _live:
         return _live
     live.quiet_logs()
     threading.excepthook = lambda a: None
-    scope = live.ConfigScope(COMMTIMEOUT=commtimeout, MAX_MESSAGE_SIZE=256 * 1024, POLLTIMEOUT=0.2)
+    cfg = dict(COMMTIMEOUT=commtimeout, MAX_MESSAGE_SIZE=256 * 1024, POLLTIMEOUT=0.2)
+    if poolsize:
+        cfg.update(THREADPOOL_SIZE=poolsize, THREADPOOL_SIZE_MIN=1)     # the two witnesses occupy every worker: hostile connections take the denial path
+    scope = live.ConfigScope(**cfg)
     scope.__enter__()
     S = live.Served(servertype)
     S.daemon.register(_classes()(), "w")
@@ -194,12 +197,13 @@ def _teardown():
     _live.clear()
 
 
-def run_case(case, servertype=None, commtimeout=None, keep=False):
+def run_case(case, servertype=None, commtimeout=None, keep=False, poolsize=None):
     from vlib import live
     from Pyro5 import errors
     servertype = servertype or case.get("servertype", "thread")
     commtimeout = commtimeout if commtimeout is not None else case.get("commtimeout", 0.0)
-    L = _setup(servertype, commtimeout)
+    poolsize = poolsize or case.get("poolsize")
+    L = _setup(servertype, commtimeout, poolsize)
     S = L["served"]
     V = []
 
@@ -247,7 +251,9 @@ def run_case(case, servertype=None, commtimeout=None, keep=False):
             try:
                 if step["handshake"]:
                     m = peer.handshake("w")
-                    if not isinstance(m, dict) or m["type"] != wire.CONNECTOK:
+                    if poolsize:
+                        pass        # every worker is taken by the witnesses: this connection is (rightly) refused
+                    elif not isinstance(m, dict) or m["type"] != wire.CONNECTOK:
                         viol("handshake-refused", "valid handshake refused during the script (step %d): %r" % (n, m))
                 data = b"".join(build_msg(m) for m in step["msgs"])
                 peer.send(data)
@@ -272,6 +278,10 @@ def run_case(case, servertype=None, commtimeout=None, keep=False):
         for i in (0, 1):
             witness_call(i, "after the script")
         # a fresh client must still be served
+        if poolsize:
+            L["witnesses"][1]._pyroRelease()        # make room: the pool was full on purpose
+            L["witnesses"][1] = None
+            live.wait_for(lambda: S.busy_workers() <= poolsize - 1, CEILING)
         try:
             with live.proxy(S.uri("w"), timeout=CEILING) as p:
                 L["token"] += 1
@@ -280,6 +290,9 @@ def run_case(case, servertype=None, commtimeout=None, keep=False):
                     viol("fresh-client-wrong-answer", "fresh client got a wrong answer")
         except Exception as x:
             viol("fresh-client-refused", "a new client cannot connect/call after the script: %r" % (x,))
+        if poolsize:
+            # let the server notice that the fresh client is gone before the next case reconnects its second witness
+            live.wait_for(lambda: S.busy_workers() <= sum(1 for w in L["witnesses"] if w is not None and w._pyroConnection is not None), CEILING)
         if not S.loop_alive():
             viol("loop-died", "request loop terminated (%r)" % (S.loop_error,))
         if commtimeout:
@@ -342,23 +355,24 @@ def sweep_cases():
 
 def SHARDS(tier):
     sh = [{"servertype": s, "commtimeout": t} for s in ("thread", "multiplex") for t in (0.0, 0.5)]
-    return sh * (2 if tier == "quick" else 4)
+    return sh * (2 if tier == "quick" else 4) + [{"servertype": "thread", "commtimeout": 0.0, "poolsize": 2}] * (1 if tier == "quick" else 3)
 
 
 def run(ctx):
     sh = ctx.shard
-    st_, to = sh.get("servertype", "thread"), sh.get("commtimeout", 0.0)
+    st_, to, ps = sh.get("servertype", "thread"), sh.get("commtimeout", 0.0), sh.get("poolsize")
     try:
-        if sh.get("index", 0) < 4:        # the deterministic sweep runs once per (server type, timeout) combination
+        if sh.get("index", 0) < 4 or (ps and sh.get("index", 0) in (8, 16)):        # the deterministic sweep runs once per combination
             k = 0
             for case in sweep_cases():
-                ctx.observe(case, run_case(case, st_, to, keep=True), _nontrivial(case), _labels(case) + ["sweep"])
+                ctx.observe(case, run_case(case, st_, to, keep=True, poolsize=ps), _nontrivial(case), _labels(case) + ["sweep"] + (["pool-full"] if ps else []))
                 k += 1
                 if ctx.violations:
                     break
             ctx.notes["sweep_cases"] = k
         n = ctx.n(400, 2500) if not to else ctx.n(150, 800)
-        ctx.search(case_strategy(), lambda c: run_case(c, st_, to, keep=True), n, nontrivial=_nontrivial, labels=_labels,
+        ctx.search(case_strategy(), lambda c: run_case(c, st_, to, keep=True, poolsize=ps), n, nontrivial=_nontrivial,
+                   labels=(lambda c: _labels(c) + (["pool-full"] if ps else [])),
                    name="hostile%s%s" % (st_, to), max_rounds=1, shrink_budget_s=30)   # one violation per shard: a failing case may cost a hang ceiling
     finally:
         _teardown()
